@@ -21,7 +21,7 @@ VERB_OFFENDERS = {
     "rename_dup": "ValueError", "rename_unknown": "ValueError", "group_by_hidden": "ValueError", "slice_grouped": "ValueError",
     "join_grouped": "ValueError", "join_same_origin": "ValueError", "join_backends": "TypeError", "join_suffix_dup": "ValueError",
     "join_on_nonbool": "DataTypeError", "join_on_agg": "FunctionTypeError", "join_full_noneq": "ValueError",
-    "join_on_unknown": "ValueError", "marker_in_filter": "TypeError", "mutate_agg_of_window": "FunctionTypeError",
+    "join_on_unknown": "ValueError", "join_on_out_of_scope": "ValueError", "marker_in_filter": "TypeError", "mutate_agg_of_window": "FunctionTypeError",
 }
 POSITIONS = ["top", "is_null", "coalesce", "case_value", "case_cond", "ctx_filter", "ctx_arrange", "nested2"]
 CONTEXTS = ["mutate", "filter", "arrange", "summarize", "join_on"]
@@ -142,6 +142,31 @@ def c14_case(draw, tier):
                 case["mode"] = "skip"
                 return case
             off["ref"] = draw(st.sampled_from(hidden))
+        if which == "join_on_out_of_scope":
+            # a reference whose column is gone from the table (cut off by summarize / alias / union ...): `on` must
+            # refuse it although the reference's table is an ancestor
+            def gone_refs():
+                return [{"v": v, "n": n} for v, src in g.env.vars.items() if "~" not in v
+                        for n, c in src.visible if c not in t.scope and src.fam[c] == "int"]
+
+            gone = gone_refs()
+            if not gone or draw(st.booleans()):
+                # cut columns off with a summarize
+                try:
+                    sv = g.v_summarize(var)
+                except (pipegen.OutOfDomain, pipegen.GenSkip):
+                    sv = None
+                if sv is not None:
+                    var = sv
+                    if g.t(var).group:
+                        var = g.emit({"out": g.new_var(), "verb": "ungroup", "in": var}) or var
+                    case["result"] = var
+                    t = g.t(var)
+                    gone = gone_refs()
+            if not gone:
+                case["mode"] = "skip"
+                return case
+            off["ref"] = draw(st.sampled_from(gone))
         if which in ("filter_nonbool", "join_on_nonbool"):
             c = col_of("int") or col_of("str") or col_of("float") or col_of("date")
             if c is None:
@@ -197,7 +222,8 @@ class C14(Check):
             "a generated verb context (mutate, filter, arrange, summarize, join on); (b) verb-level offenders (non-boolean "
             "filter/on, aggregate in filter/on, window in summarize, non-key column in summarize, unknown/hidden column in "
             "select, duplicate or unknown rename, group_by of a hidden column, slice_head on a grouped table, join of "
-            "grouped / same-origin / different-backend tables, colliding user suffix, full join with a non-equality). "
+            "grouped / same-origin / different-backend tables, colliding user suffix, full join with a non-equality, a join "
+            "condition over a column that a summarize / alias / union has cut off). "
             "Oracle: the call raises exactly the documented exception type on Polars and on SQLite and the input table "
             "exports the same frame afterwards; 20% converse cases: accepted Polars pipelines must export without an "
             "internal error. non-trivial = offender nested at depth >=1 or preceded by >=2 verbs")
@@ -325,6 +351,9 @@ class C14(Check):
             return tbl >> pdt.join(right, b.expr(["fn", "is_not_null", [anyc], {}]), "full", suffix="_zz")
         if which == "join_on_unknown":
             return tbl >> pdt.join(right, pdt.C.zz_nope == pdt.C.zz_nope2, "inner", suffix="_zz")
+        if which == "join_on_out_of_scope":
+            rid = next(c for c in right if c.name.startswith("id"))  # the right operand's columns carry a suffix
+            return tbl >> pdt.join(right, b.colref(off["ref"]) == rid, "inner", suffix="_zz")
         raise AssertionError(which)
 
     def _one(self, case, off, kind, bk, other, out):
